@@ -144,8 +144,8 @@ pub fn run_case(rt: &tokio::runtime::Runtime, seed: u64, idx: u64, keep_log: boo
         hash: wl.log_hash.0,
         sched,
         states,
+        nontrivial: nontrivial_for("C03", &wl.counters, wl.nontrivial),
         counters: std::mem::take(&mut wl.counters),
-        nontrivial: wl.nontrivial,
         events: wl.callbacks + wl.action_no,
         cfg: cfg_desc,
     }
